@@ -17,6 +17,8 @@ props.prop(
             'subset_state/label/style to the group',
     not_decided='histories (that the pairs are executed in every order), label disambiguation, message order',
     assumptions=['subset groups are created only through DataCollection.new_subset_group'])
+props.also('C06',
+           'that every registered DataCollection protocol that restores groups registers them to the hub (all loader versions, through whatever chain of loaders); that the hub flushes only a detached snapshot (shared with C07.b)')
 
 SG = 'glue.core.subset_group.SubsetGroup'
 GS = 'glue.core.subset_group.GroupedSubset'
